@@ -8,6 +8,17 @@ Shape descriptor: (n, cells): box size n, givens placed only on the listed cells
 Besides the whole 4 x 4 board (where the cap only reaches 1 given in the quick tier, 2 in the thorough tier) the ladder
 has a 4-cell probe set {(0,0), (0,3), (3,0), (1,1)} - pairs in one row, one column and one box - on which the cap rule
 reaches 2 givens (quick) / all 5^4 layouts (thorough), so contradictory and strongly constrained boards are covered.
+
+"large" family, descriptor ("large", n, level) with level 0 = quick / 1 = thorough: densely clued boards of box size
+2, 3 and 4 (4 x 4, 9 x 9, 16 x 16 - the last one has givens of two digits) derived from a few complete grids (the
+lexicographically first and last one and one from a position-dependent digit order, found by backtracking over the
+rules): the full grid, the grid minus every k-th given, minus the last row / last column / far-corner box / a whole band
+or stack, minus cell pairs that only the row rule / the column rule / the box rule can decide, and one given changed
+by +1 / -1 (first, last, middle cell, a corner, an edge), once as is and once with the givens that contradict the
+changed value blanked.  Oracle for n >= 3: completions() - backtracking from the rules over the blank cells (most
+constrained cell first) that returns ALL completions; it is compared with the all_grids() filter on 4 x 4 boards in
+selftest().  The clue-free 9 x 9 / 16 x 16 boards are left out: neither can the oracle enumerate them nor does the solver
+decide them within minutes (81 / 256 undecided cells).
 """
 
 from . import base
@@ -53,14 +64,270 @@ def all_grids(n):
     return out
 
 
+def obeys_rules(n, g):
+    """Rule check of one completed board (row-major sequence), written independently of the enumerators."""
+    size = n * n
+    want = list(range(1, size + 1))
+    for i in range(size):
+        if sorted(g[i * size + x] for x in range(size)) != want:
+            return False
+        if sorted(g[y * size + i] for y in range(size)) != want:
+            return False
+    for by in range(n):
+        for bx in range(n):
+            if sorted(g[(by * n + dy) * size + bx * n + dx] for dy in range(n) for dx in range(n)) != want:
+                return False
+    return True
+
+
+class TooMany(Exception):
+    pass
+
+
+def completions(n, problem, limit=300000):
+    """ALL completed boards that keep the givens (problem[y][x] >= 1): backtracking over the blank cells, always
+    branching on a blank cell with the fewest admissible digits.  Complete: every digit admissible for the chosen cell
+    is tried, and a cell without admissible digit ends the branch."""
+    size = n * n
+    full = (1 << (size + 1)) - 2  # bits 1..size
+    rows = [0] * size
+    cols = [0] * size
+    boxes = [0] * size
+    cells = [0] * (size * size)
+    blanks = []
+    for y in range(size):
+        for x in range(size):
+            v = problem[y][x]
+            if v >= 1:
+                if v > size:
+                    return []
+                bit = 1 << v
+                b = (y // n) * n + x // n
+                if rows[y] & bit or cols[x] & bit or boxes[b] & bit:
+                    return []
+                rows[y] |= bit
+                cols[x] |= bit
+                boxes[b] |= bit
+                cells[y * size + x] = v
+            else:
+                blanks.append((y, x))
+    out = []
+
+    def rec(todo):
+        if not todo:
+            out.append(tuple(cells))
+            if len(out) > limit:
+                raise TooMany(len(out))
+            return
+        best = None
+        bestmask = 0
+        bestcnt = size + 1
+        for i, (y, x) in enumerate(todo):
+            m = full & ~(rows[y] | cols[x] | boxes[(y // n) * n + x // n])
+            c = bin(m).count("1")
+            if c < bestcnt:
+                best, bestmask, bestcnt = i, m, c
+                if c <= 1:
+                    break
+        if bestcnt == 0:
+            return
+        y, x = todo[best]
+        rest = todo[:best] + todo[best + 1 :]
+        b = (y // n) * n + x // n
+        for v in range(1, size + 1):
+            bit = 1 << v
+            if bestmask & bit:
+                rows[y] |= bit
+                cols[x] |= bit
+                boxes[b] |= bit
+                cells[y * size + x] = v
+                rec(rest)
+                cells[y * size + x] = 0
+                rows[y] &= ~bit
+                cols[x] &= ~bit
+                boxes[b] &= ~bit
+
+    rec(blanks)
+    return out
+
+
+_SEEDS = {}
+
+
+def seed_grid(n, order):
+    """One completed board found by cell-by-cell backtracking (row-major) over the rules; `order` fixes the order in
+    which digits are tried: "asc" gives the lexicographically first board, "desc" the last one, "rot" tries the digits
+    in an order rotated by the cell position, "pattern" is the shifted-rows board (y, x) -> (n (y mod n) + y div n + x)
+    mod n^2 + 1.  Every board is verified by obeys_rules."""
+    key = (n, order)
+    if key in _SEEDS:
+        return _SEEDS[key]
+    size = n * n
+    if order == "pattern":
+        g = tuple((n * (y % n) + y // n + x) % size + 1 for y in range(size) for x in range(size))
+    else:
+        cells = [0] * (size * size)
+
+        def digits(pos):
+            d = list(range(1, size + 1))
+            if order == "desc":
+                d.reverse()
+            elif order == "rot":
+                y, x = divmod(pos, size)
+                k = (2 * y + 3 * x) % size
+                d = d[k:] + d[:k]
+            return d
+
+        def free(pos, v):
+            y, x = divmod(pos, size)
+            for i in range(size):
+                if cells[y * size + i] == v or cells[i * size + x] == v:
+                    return False
+            by, bx = (y // n) * n, (x // n) * n
+            for yy in range(by, by + n):
+                for xx in range(bx, bx + n):
+                    if cells[yy * size + xx] == v:
+                        return False
+            return True
+
+        def rec(pos):
+            if pos == size * size:
+                return True
+            for v in digits(pos):
+                if free(pos, v):
+                    cells[pos] = v
+                    if rec(pos + 1):
+                        return True
+                    cells[pos] = 0
+            return False
+
+        assert rec(0)
+        g = tuple(cells)
+    assert obeys_rules(n, g)
+    _SEEDS[key] = g
+    return g
+
+
+def large_instances(n, level):
+    """The "large" family of box size n (see the module docstring); yields problem grids."""
+    size = n * n
+    ncell = size * size
+    if n == 4:
+        orders = ["rot"] if level == 0 else ["rot", "asc"]
+    else:
+        orders = ["asc", "desc", "rot"] if level == 0 else ["asc", "desc", "rot", "pattern"]
+    seen = set()
+
+    def bump(v, d):
+        w = v + d
+        if w < 1 or w > size:
+            w = v - d
+        return w
+
+    for order in orders:
+        g = seed_grid(n, order)
+        cand = [list(g)]
+        # minus every k-th given
+        if n == 4:
+            ks = [3, 5] if level == 0 else [3, 5, 6, 7, 9]
+            offs = [0]
+        else:
+            ks = [2, 3, 5] if level == 0 else [2, 3, 4, 5, 6, 7, 8, 9, 10, 11]
+            offs = [0] if level == 0 else [0, 1]
+        for k in ks:
+            for o in offs:
+                cand.append([0 if i % k == o else v for i, v in enumerate(g)])
+
+        # whole lines / boxes / bands blanked: last row, last column, both, far-corner box, first row + first column,
+        # last band, last stack (the bands only up to 9 x 9: a blank band of the 16 x 16 board has too many fillings)
+        def without(pred):
+            return [0 if pred(i // size, i % size) else v for i, v in enumerate(g)]
+
+        cand.append(without(lambda y, x: y == size - 1))
+        cand.append(without(lambda y, x: x == size - 1))
+        cand.append(without(lambda y, x: y == size - 1 or x == size - 1))
+        cand.append(without(lambda y, x: y >= size - n and x >= size - n))
+        cand.append(without(lambda y, x: y == 0 or x == 0))
+        if n <= 3:
+            cand.append(without(lambda y, x: y >= size - n))
+            cand.append(without(lambda y, x: x >= size - n))
+        if n == 2:
+            # only the last row and the last column given / only the far-corner box and the first row
+            cand.append(without(lambda y, x: not (y == size - 1 or x == size - 1)))
+            cand.append(without(lambda y, x: not (y == 0 or (y >= size - n and x >= size - n))))
+        # pairs that only one rule decides: two cells of one column inside one box (row rule), two cells of one row
+        # inside one box (column rule), rectangles a b / b a over four boxes (box rule)
+        vert = []
+        horz = []
+        for r in range(size):
+            r2 = (r // n) * n + (r + 1) % n
+            vert.append([r * size + r, r2 * size + r])
+            horz.append([r * size + r, r * size + r2])
+        rect = []
+        for r1 in range(size):
+            for r2 in range(r1 + 1, size):
+                if r1 // n == r2 // n:
+                    continue
+                for c1 in range(size):
+                    for c2 in range(c1 + 1, size):
+                        if c1 // n == c2 // n:
+                            continue
+                        if g[r1 * size + c1] == g[r2 * size + c2] and g[r1 * size + c2] == g[r2 * size + c1]:
+                            rect.append([r1 * size + c1, r1 * size + c2, r2 * size + c1, r2 * size + c2])
+        want = 2 if level == 0 else 8
+        if len(rect) > want:
+            rect = [rect[(len(rect) - 1) * j // (want - 1)] for j in range(want)]
+        groups = [sum(vert, []), sum(horz, [])] + rect
+        if level:
+            groups += vert + horz
+        for grp in groups:
+            cand.append([0 if i in grp else v for i, v in enumerate(g)])
+        # one given changed by +1 / -1 (first, last, middle cell, a corner, an edge): as is, with the contradicting
+        # givens blanked, and on top of "minus every 3rd"
+        spots = [0, ncell - 1, ncell // 2 + size // 2]
+        if level:
+            spots += [size - 1, ncell - size, size + size // 2]
+        third = [0 if i % 3 == 1 else v for i, v in enumerate(g)]
+        for pos in spots:
+            for d in (1, -1):
+                w = bump(g[pos], d)
+                c = list(g)
+                c[pos] = w
+                y, x = divmod(pos, size)
+                c2 = list(c)
+                for i in range(ncell):
+                    yy, xx = divmod(i, size)
+                    if i != pos and g[i] == w and (yy == y or xx == x or (yy // n == y // n and xx // n == x // n)):
+                        c2[i] = 0
+                cand.append(c2)
+                if level or d == 1:
+                    cand.append(c)
+                    if third[pos]:
+                        c3 = list(third)
+                        c3[pos] = w
+                        cand.append(c3)
+        for c in cand:
+            key = tuple(c)
+            if key not in seen:
+                seen.add(key)
+                yield base.grid(c, size, size)
+
+
 class Sudoku(base.Rule):
     name = "sudoku"
 
     def shapes(self, tier):
         # n = 3 (6.7e21 boards) cannot be enumerated
-        return [(1, None), (2, None), (2, [0, 3, 12, 5])]
+        s = [(1, None), (2, None), (2, [0, 3, 12, 5])]
+        level = 0 if tier == "quick" else 1
+        return s + [("large", 2, level), ("large", 3, level), ("large", 4, level)]
 
     def instances(self, shape, cap):
+        if shape[0] == "large":
+            _, n, level = shape
+            for prob in large_instances(n, level):
+                yield {"n": n, "problem": prob}
+            return
         n, where = shape
         size = n * n
         where = list(range(size * size)) if where is None else where
@@ -81,6 +348,8 @@ class Sudoku(base.Rule):
         n = p["n"]
         size = n * n
         given = [(y * size + x, p["problem"][y][x]) for y in range(size) for x in range(size) if p["problem"][y][x] >= 1]
+        if n >= 3:
+            return [completions(n, p["problem"])]
         return [[g for g in all_grids(n) if all(g[pos] == v for pos, v in given)]]
 
     def example(self):
@@ -90,6 +359,32 @@ class Sudoku(base.Rule):
             [0, 6, 0, 0, 0, 0, 2, 8, 0], [0, 0, 0, 4, 1, 9, 0, 0, 5], [0, 0, 0, 0, 8, 0, 0, 7, 9],
         ]
         return {"n": 3, "problem": prob}, "cspuz/puzzle/sudoku.py _main() (Wikimedia Sudoku-by-L2G-20050714; too large to enumerate)"
+
+
+def selftest():
+    assert len(all_grids(2)) == 288 and all(obeys_rules(2, g) for g in all_grids(2))
+    assert not obeys_rules(2, (1, 2, 3, 4, 3, 4, 1, 2, 2, 1, 4, 3, 4, 3, 2, 2))
+    assert not obeys_rules(2, (1, 2, 3, 4, 2, 3, 4, 1, 3, 4, 1, 2, 4, 1, 2, 3))  # Latin square, boxes wrong
+    # completions() against the all_grids() filter: every layout with <= 2 givens, the 4-cell probe set completely,
+    # and every instance of the large family of box size 2
+    r = Sudoku()
+    probs = list(r.instances((2, None), 12000)) + list(r.instances((2, [0, 3, 12, 5]), 12000))
+    probs += list(r.instances(("large", 2, 1), 0))
+    assert len(probs) > 2000
+    for p in probs:
+        given = [(y * 4 + x, p["problem"][y][x]) for y in range(4) for x in range(4) if p["problem"][y][x] >= 1]
+        ref = sorted(g for g in all_grids(2) if all(g[pos] == v for pos, v in given))
+        assert sorted(completions(2, p["problem"])) == ref, p
+    assert sorted(completions(2, [[0] * 4 for _ in range(4)])) == sorted(all_grids(2))
+    # 9 x 9: the published example has exactly one completion and it obeys the rules; a blanked full grid comes back
+    ex, _ = r.example()
+    sols = completions(3, ex["problem"])
+    assert len(sols) == 1 and obeys_rules(3, sols[0])
+    g = seed_grid(3, "asc")
+    assert g[:9] == (1, 2, 3, 4, 5, 6, 7, 8, 9) and seed_grid(3, "desc")[:9] == (9, 8, 7, 6, 5, 4, 3, 2, 1)
+    for prob in large_instances(3, 0):
+        for s in completions(3, prob):
+            assert obeys_rules(3, s)
 
 
 RULE = Sudoku()
